@@ -17,6 +17,7 @@ import (
 	"github.com/gotd/td/crypto"
 	"github.com/gotd/td/exchange"
 	"github.com/gotd/td/verifharness/hx"
+	"github.com/gotd/td/verifharness/xkit"
 )
 
 func errCode(err error) int {
@@ -420,6 +421,18 @@ func main() {
 	dhOne("2^2047", 4, new(big.Int).Lsh(bi(1), 2047))
 	dhOne("2^2048-1", 4, new(big.Int).Sub(new(big.Int).Lsh(bi(1), 2048), bi(1)))
 	dhOne("2^2048", 4, new(big.Int).Lsh(bi(1), 2048))
+	// genuine SAFE primes of other sizes (RFC 3526 MODP groups, p = 7 mod 8 so g = 2 and 4 obey the table):
+	// only the 2048-bit one may be accepted; shorter and LONGER safe primes must be refused
+	sizes := []int{1536, 2048, 3072}
+	if c.Thorough() {
+		sizes = append(sizes, 4096)
+	}
+	for _, bits := range sizes {
+		mp := xkit.MODPPrime(bits)
+		for _, g := range []int{2, 4, 3, 7} {
+			dhOne(fmt.Sprintf("rfc3526-%d-bit-safe-prime", bits), g, mp)
+		}
+	}
 	// a 2048-bit prime that is (almost surely) not safe, g = 4 so that the table passes
 	for k := 0; k < c.N(1, 6); k++ {
 		for {
@@ -520,7 +533,7 @@ func main() {
 	}
 	pqOne("tg-test-pq", 0x494C553B, 0x53911073, false, nil)
 
-	c.Obs.Rule = "CheckGP: residue classes modulo 840 (all in thorough, a third in quick) for g = 0..9, multiples of 840 plus each table residue with random large cofactors, random (g,p), the production prime, Euler cross-check on all safe primes < 20000; CheckDH: production prime with g = 1..8, neighbours, halves/doubles, powers of two, random 2048-bit primes and composites; CheckDHParams: each of g, g_a, g_b at every bound -1/0/+1 relative to 0, p, 2^1984, p-2^1984 with the others valid, plus random mixes, for the production prime, random 2048-bit moduli and degenerate moduli; DecomposePQ: small semiprimes with recorded random stream against the Coq model, all/sampled semiprimes of primes < 2^12, random 31/32-bit prime pairs; non-trivial = distinct (function, input) with an oracle evaluation"
+	c.Obs.Rule = "CheckGP: residue classes modulo 840 (all in thorough, a third in quick) for g = 0..9, multiples of 840 plus each table residue with random large cofactors, random (g,p), the production prime, Euler cross-check on all safe primes < 20000; CheckDH: production prime with g = 1..8, neighbours, halves/doubles, powers of two, the RFC 3526 safe primes of 1536 / 2048 / 3072 (thorough: 4096) bits with g = 2,4,3,7, random 2048-bit primes and composites; CheckDHParams: each of g, g_a, g_b at every bound -1/0/+1 relative to 0, p, 2^1984, p-2^1984 with the others valid, plus random mixes, for the production prime, random 2048-bit moduli and degenerate moduli; DecomposePQ: small semiprimes with recorded random stream against the Coq model, all/sampled semiprimes of primes < 2^12, random 31/32-bit prime pairs; non-trivial = distinct (function, input) with an oracle evaluation"
 	c.Finish()
 }
 
